@@ -110,20 +110,21 @@ theorem concat_normalForm (b p : Str) (hb : NormalForm b) (hp : NormalForm p)
     have hr : render ⟨false, 0, pn⟩ = joinSlash pn := by simp [render]
     rw [hr]
     cases pn with
-    | nil => simpa [concatPaths] using ⟨db, hdb, rfl⟩
+    | nil => simpa [concatPaths_eq_spec, concatSpec] using ⟨db, hdb, rfl⟩
     | cons n pn =>
       have hcomp : ∀ c ∈ n :: pn, IsComp c := fun c hc => (hdp.2 c hc).isComp
       have hne : joinSlash (n :: pn) ≠ [] := by simp
       have hh : ¬ (joinSlash (n :: pn)).head? = some '/' := head?_joinSlash_ne_slash _ hcomp
-      unfold concatPaths
+      rw [concatPaths_eq_spec]
+      unfold concatSpec
       simp only [hne, hh, ↓reduceIte]
       split
       · exact ⟨⟨false, 0, n :: pn⟩, hdp, by simp [render]⟩
       · rename_i hbne
         rcases render_nil_or_slash db with h | ⟨y, h⟩
         · exact absurd h hbne
-        · have hs : hasSuffix (render db) ['/'] = true := by
-            rw [hasSuffix_iff_isSuffix]; exact ⟨y, h.symm⟩
+        · have hs : (render db).getLast? = some '/' := by
+            rw [← hasSuffix_slash_iff, hasSuffix_iff_isSuffix]; exact ⟨y, h.symm⟩
           simp only [hs, ↓reduceIte]
           refine ⟨⟨db.abs, db.ups, db.names ++ (n :: pn)⟩, ⟨hdb.1, ?_⟩, ?_⟩
           · intro m hm
